@@ -59,7 +59,7 @@ def compute(tier, seed):
     mbox = {}
     mthread = None
     if os.environ.get("VERIF_NO_MIRI") != "1":
-        mpl = corpus_rt.build_plan("miri", seed)
+        mpl = corpus_rt.build_plan("miri" if tier == "quick" else "miri_thorough", seed)
         # one case per binary (Miri is slow; the binaries run in parallel); ids must not collide with the main corpus
         mpl.groups = [{"id": f"m{c['id']}", "gprop": "", "cases": [c], "kind": "miri"} for g in mpl.groups for c in g["cases"]]
         for g in mpl.groups:
